@@ -101,7 +101,29 @@ def _dds_data_attrs():
             if callable(v) and not isinstance(v, (dict, list, set)):
                 continue
             out[(name, k)] = v
+        # mutable class-level attributes of the library's classes are per-process state too
+        for cn, c in vars(mod).items():
+            if isinstance(c, type) and getattr(c, "__module__", None) == name:
+                for k, v in vars(c).items():
+                    if not k.startswith("__") and isinstance(v, (dict, list, set)):
+                        out[(name, cn, k)] = v
     return out
+
+
+def _owner(key):
+    return sys.modules[key[0]] if len(key) == 2 else getattr(sys.modules[key[0]], key[1])
+
+
+def _fresh_copy(v, memo):
+    """a new process would build this module-level object again: deep copy where possible, else (thread-local holders, locks,
+    ...) a new instance of the same class built without arguments"""
+    try:
+        return copy.deepcopy(v, memo)
+    except Exception:  # noqa
+        try:
+            return type(v)()
+        except Exception:  # noqa
+            return v
 
 
 class World:
@@ -124,15 +146,15 @@ class World:
 
     def fresh_dds_state(self):
         memo = {}
-        for (mn, k), v in self.pristine.items():
-            setattr(sys.modules[mn], k, copy.deepcopy(v, memo))
+        for key, v in self.pristine.items():
+            setattr(_owner(key), key[-1], _fresh_copy(v, memo))
 
     def capture_dds_state(self):
-        return {(mn, k): getattr(sys.modules[mn], k) for (mn, k) in self.pristine}
+        return {key: getattr(_owner(key), key[-1]) for key in self.pristine}
 
     def install_dds_state(self, img):
-        for (mn, k), v in img.items():
-            setattr(sys.modules[mn], k, v)
+        for key, v in img.items():
+            setattr(_owner(key), key[-1], v)
 
     def close(self):
         for k in [k for k in sys.modules if k.startswith(("vp", "vr", "vx")) and k[2:3].isdigit()]:
